@@ -97,6 +97,15 @@ def analyse(ctx, run, bools, reports):
     bools.append((f'Nat.eqb (List.length (result_rows (fun t => nth t {flags} None) (seq 0 {len(run.tasks)}%nat))) {len(rows) + lock_lost}%nat',
                   lambda: ctx.violate('property', 'failure-local:rowcount', f'{len(rows)} rows for {len(run.ok_tasks)} iterations whose own simulation '
                                       f'succeeded ({len(run.tasks)} executed)', inp=_inp(run), expected=len(run.ok_tasks), observed=len(rows))))
+    # --- two API requests with the default output file: each result keeps its own file, the first one still holds its own run
+    if getattr(run, 'default_output', False) and len(run.api) == 2:
+        a0, a1 = run.api
+        if a0['path'] == a1['path'] or a0['result_text_after'] != a0['result_text'] or a0['json_text_after'] != a0['json_text']:
+            ctx.violate('property', 'summary:api-default-output-shared', 'after a second request with the default output file the first MonteCarloResult no longer '
+                        f'points at its own run: paths {"equal" if a0["path"] == a1["path"] else "differ"}, its result file now has '
+                        f'{len(mc.parse_result(a0["result_text_after"] or chr(10))[1])} rows (the first run wrote {len(mc.parse_result(a0["result_text"])[1])})',
+                        inp=_inp(run, default_output=True), expected='two result files, the first unchanged',
+                        observed={'paths': [a0['path'], a1['path']], 'first_unchanged': a0['result_text_after'] == a0['result_text']})
     # --- the lock: one pass phrase per work package (the model's pass = identity), and no entry while another is inside
     passes = [t['lock_pass'] for t in run.tasks if t.get('lock_pass')]
     if len(set(passes)) < len(passes):
@@ -275,7 +284,7 @@ def replay(ctx, data):
     bools = []
     first = inp.get('settings_first')
     run = mc.run_job(ctx, 'replay', first or inp['settings'], W=inp['W'], mode=inp.get('mode', 'pool'), program=inp.get('program', 'HIP_RA_X'),
-                     base=inp.get('base'), settings2=inp['settings'] if first else None)
+                     base=inp.get('base'), settings2=inp['settings'] if first else None, default_output=inp.get('default_output', False))
     judge(ctx, [run], bools, 120)
     for i in fw.kernel_bools(ctx, 'c14r', REQ, [b for b, _ in bools], shard=40, open_scope='string_scope'):
         bools[i][1]()
